@@ -3,7 +3,7 @@
    sylvia-derive/src/types/interfaces.rs, translated on every run: GenImpMacro.bridge_fns, Facts/BridgeRefine.v). Statements
    only; see Props/C05T.v for the status of such theorems. *)
 From Coq Require Import String List Bool.
-Require Import SV.Model.Imp SV.Model.GenImpMacro SV.Facts.ImpFacts SV.Facts.MacroRefine SV.Facts.BridgeRefine.
+Require Import SV.Model.Imp SV.Model.GenImpBridge SV.Facts.ImpFacts SV.Facts.MacroRefine SV.Facts.BridgeRefine.
 Import ListNotations.
 Open Scope string_scope.
 Open Scope list_scope.
@@ -12,23 +12,48 @@ Open Scope list_scope.
    the attempt for interface i consults the name list of THAT interface's module for THIS kind
    (`module_i::sv::<entry point name of the kind>_messages()`) and, when the name is listed, decodes into THAT
    interface's variant. *)
-Theorem c03_translated_deserialization_attempts : forall kv (l : list (value * value)),
+Theorem c03_translated_deserialization_attempts : forall kv (l : list iface),
   calls BR 2 "Interfaces::emit_deserialization_attempts" [ifaces_v l; kv] (CVal (VArr (map (attempt_spec kv) l))).
 Proof. exact translated_deserialization_attempts. Qed.
 
 (* the variants of the contract-level message: one per interface, in order, variant i wrapping the message type of
    interface i for this kind - `<Contract as module_i::sv::InterfaceMessagesApi>::<accessor of the kind>` *)
-Theorem c03_translated_glue_variants_and_types : forall kv contract (l : list (value * value)),
+Theorem c03_translated_glue_variants_and_types : forall kv contract (l : list iface),
   calls BR 2 "Interfaces::emit_glue_message_variants" [ifaces_v l; kv; contract] (CVal (VArr (map (glue_variant_spec kv contract) l))) /\
   calls BR 2 "Interfaces::emit_glue_message_types" [ifaces_v l; kv; contract] (CVal (VArr (map (glue_type_spec kv contract) l))).
 Proof. intros. split; [apply translated_glue_variants | apply translated_glue_types]. Qed.
 
+(* `GlueMessage::emit` puts the contract-level message of a kind together, for ANY list of attached interfaces: the variants,
+   types, dispatch arms and deserialisation attempts are the per-interface ones above, in order; the lists checked for
+   overlap (and quoted in the "unsupported message" error) are those of every interface followed by the contract's own,
+   `1 + number of interfaces` of them; the contract's own attempt consults the contract's own list; the response table exists for queries only and
+   is fed by every interface's table followed by the contract's own. *)
+Theorem c03_translated_contract_level_message :
+  forall params w contract k err custom (l : list iface), In k six_kinds ->
+  exists r,
+    calls BR 3 "GlueMessage::emit" [glue_self params w contract k err custom l] (CVal r) /\
+    lookup "messages_call" (holes_of r) =
+      Some (VArr (map (msgs_call_spec (kind_v k)) l ++ [quote_v "&# messages_fn_name ()" [("messages_fn_name", own_fn k contract)]])) /\
+    lookup "variants_cnt" (holes_of r) = Some (VNat (S (length l))) /\
+    lookup "variants" (holes_of r) = Some (VArr (map (glue_variant_spec (kind_v k) contract) l)) /\
+    lookup "types" (holes_of r) = Some (VArr (map (glue_type_spec (kind_v k) contract) l)) /\
+    lookup "dispatch_arms" (holes_of r) = Some (VArr (map (arm_spec k) l)) /\
+    lookup "interfaces_deserialization_attempts" (holes_of r) = Some (VArr (map (attempt_spec (kind_v k)) l)) /\
+    is_quote_with (lookup "contract_deserialization_attempt" (holes_of r))
+      [("messages_fn_name", own_fn k contract); ("contract_name", VCon ".fold_type" [VCon "StripGenerics" []; contract])] /\
+    (if k =? "Query"
+     then exists rs t own, lookup "response_schemas" (holes_of r) = Some rs /\
+            lookup "response_schemas_calls" (holes_of rs) = Some (VArr (map (schemas_call_spec (kind_v k) contract) l ++ [quote_v t own]))
+     else lookup "response_schemas" (holes_of r) = Some (quote_v "" [])).
+Proof. exact translated_glue_message. Qed.
+
 (* the templates were found (the statements are not about empty texts), and a concrete run *)
 Example c03_translated_example :
   t_attempt <> "" /\ t_glue_variant <> "" /\ t_glue_type <> "" /\ t_iface_enum <> "" /\
-  call BR 2 200 "Interfaces::emit_deserialization_attempts" [ifaces_v [(VStr "cw1", VStr "Cw1"); (VStr "cw20", VStr "Cw20")]; kind_v "Exec"] =
-    Some (CVal (VArr [attempt_spec (kind_v "Exec") (VStr "cw1", VStr "Cw1"); attempt_spec (kind_v "Exec") (VStr "cw20", VStr "Cw20")])).
+  call BR 2 200 "Interfaces::emit_deserialization_attempts" [ifaces_v [(VStr "cw1", VStr "Cw1", false, false); (VStr "cw20", VStr "Cw20", false, false)]; kind_v "Exec"] =
+    Some (CVal (VArr [attempt_spec (kind_v "Exec") (VStr "cw1", VStr "Cw1", false, false); attempt_spec (kind_v "Exec") (VStr "cw20", VStr "Cw20", false, false)])).
 Proof. vm_compute. repeat split; discriminate. Qed.
 
 Print Assumptions c03_translated_deserialization_attempts.
 Print Assumptions c03_translated_glue_variants_and_types.
+Print Assumptions c03_translated_contract_level_message.
